@@ -143,13 +143,6 @@ Record st := mkst {
   prev : str          (* Shell.previous_dir *)
 }.
 
-(** A proposed repair that is NOT in the tree yet (notes/C09-fix-6.patch).  The model is
-    parametric in it so that the same theorems cover the code before and after the repair.
-      fx_read    read.rs / tools.rs: read cuts the line with split_into_fields_n (at most as many
-                 fields as names, the last one the rest of the line verbatim; with the default IFS
-                 runs of blanks separate) instead of split_into_fields + join with blanks *)
-Record fixes := mkfx { fx_read : bool }.
-
 (** shell.rs set_env *)
 Definition set_env (s : st) (n v : str) : st :=
   match aget (envp s) n with
@@ -257,7 +250,7 @@ Fixpoint drop_seps (seps : str) (s : str) : str :=
   end.
 Definition trim_seps (seps : str) (s : str) : str := rev (drop_seps seps (rev (drop_seps seps s))).
 
-(** tools.rs split_into_fields_n (proposed): one walk over the line.
+(** tools.rs split_into_fields_n (6cce60d): one walk over the line.
       while fields.len() + 1 < n { if default { skip the separator run };
                                    find the next separator: push the text before it, continue after it;
                                    none: break }
@@ -297,7 +290,7 @@ Fixpoint read_assign (s : st) (names : list str) (vals : list str) : st :=
   | n :: r => read_assign (set_env s n (match vals with v :: _ => v | [] => [] end)) r (tl vals)
   end.
 
-Definition read_run (fx : fixes) (s : st) (envs : alist) (toks : list token) (here : option str) : st * outcome :=
+Definition read_run (s : st) (envs : alist) (toks : list token) (here : option str) : st * outcome :=
   let names := match tl toks with
                | [] => [s_REPLY]
                | r => map snd r
@@ -306,8 +299,7 @@ Definition read_run (fx : fixes) (s : st) (envs : alist) (toks : list token) (he
   else
     (* buffer = here-string + newline (or one line of stdin), then trim() *)
     let line := trim (match here with Some h => h ++ [c_nl] | None => [] end) in
-    (read_assign s names (if fx_read fx then split_into_fields_n s line envs (length names)
-                          else split_into_fields s line envs), OStatus true).
+    (read_assign s names (split_into_fields_n s line envs (length names)), OStatus true).
 
 (* ------------------------------------------------------------------ cd.rs *)
 Definition concat_strs (l : list str) : str := fold_right (fun a b => a ++ b) [] l.
@@ -360,7 +352,7 @@ Definition ahas (m : alist) (k : str) : bool := match aget m k with Some _ => tr
 Definition child_env (inherited envs : alist) : alist :=
   filter (fun p => negb (ahas envs (fst p))) inherited ++ envs.
 
-Definition run_proc (fx : fixes) (w : world) (s : st) (toks : list token) (here : option str) : st * outcome :=
+Definition run_proc (w : world) (s : st) (toks : list token) (here : option str) : st * outcome :=
   let (envs, rest) := drain toks [] in
   match rest with
   | [] => (set_shell_vars s envs, OStatus true)
@@ -368,7 +360,7 @@ Definition run_proc (fx : fixes) (w : world) (s : st) (toks : list token) (here 
       if str_eqb c0 s_cd then cd_run w s rest
       else if str_eqb c0 s_export then
         let (s', ok) := export_loop w s rest in (s', OStatus ok)
-      else if str_eqb c0 s_read then read_run fx s envs rest here
+      else if str_eqb c0 s_read then read_run s envs rest here
       else if str_eqb c0 s_unset then unset_run s rest
       else (s, OChild (map snd rest) (child_env (envp s) envs) (cwd s))
   end.
@@ -378,20 +370,20 @@ Inductive cmd :=
 | CRun (toks : list token) (here : option str)
 | CProbe (n : str).
 
-Definition step (fx : fixes) (w : world) (s : st) (c : cmd) : st * outcome :=
+Definition step (w : world) (s : st) (c : cmd) : st * outcome :=
   match c with
-  | CRun toks here => run_proc fx w s toks here
+  | CRun toks here => run_proc w s toks here
   | CProbe n => (s, OVal (expand_lookup s n))
   end.
 
 (** a history; nothing runs after the shell died *)
-Fixpoint run_hist (fx : fixes) (w : world) (s : st) (cs : list cmd) : st * list outcome :=
+Fixpoint run_hist (w : world) (s : st) (cs : list cmd) : st * list outcome :=
   match cs with
   | [] => (s, [])
   | c :: r =>
-      let (s1, o) := step fx w s c in
+      let (s1, o) := step w s c in
       match o with
       | OPanic => (s1, [OPanic])
-      | _ => let (s2, os) := run_hist fx w s1 r in (s2, o :: os)
+      | _ => let (s2, os) := run_hist w s1 r in (s2, o :: os)
       end
   end.
